@@ -411,7 +411,22 @@ type funcContext struct {
 	labelPc         map[int]int
 	gotosCount      int
 	unresolvedGotos map[int]*gotoLabelDesc
+	levels          *int // nesting depth of the construct being compiled, shared by all functions of a chunk
 }
+
+// maxSyntaxLevels bounds the nesting of expressions and blocks.  The compiler is
+// recursive: without a bound a deeply nested chunk ("return " followed by a
+// million '#') exhausts the goroutine stack, which kills the process.
+const maxSyntaxLevels = 100000
+
+func (fc *funcContext) enterLevel(line int) {
+	*fc.levels++
+	if *fc.levels > maxSyntaxLevels {
+		raiseCompileError(fc, line, "chunk has too many syntax levels")
+	}
+}
+
+func (fc *funcContext) leaveLevel() { *fc.levels-- }
 
 func newFuncContext(sourcename string, parent *funcContext) *funcContext {
 	fc := &funcContext{
@@ -427,6 +442,11 @@ func newFuncContext(sourcename string, parent *funcContext) *funcContext {
 		unresolvedGotos: map[int]*gotoLabelDesc{},
 	}
 	fc.Blocks = []*codeBlock{fc.Block}
+	if parent != nil {
+		fc.levels = parent.levels
+	} else {
+		fc.levels = new(int)
+	}
 	return fc
 }
 
@@ -659,6 +679,8 @@ func compileBlock(context *funcContext, chunk []ast.Stmt) { // {{{
 } // }}}
 
 func compileStmt(context *funcContext, stmt ast.Stmt, isLastStmt bool) { // {{{
+	context.enterLevel(sline(stmt))
+	defer context.leaveLevel()
 	switch st := stmt.(type) {
 	case *ast.AssignStmt:
 		compileAssignStmt(context, st)
@@ -1172,6 +1194,8 @@ func compileGotoStmt(context *funcContext, stmt *ast.GotoStmt) { // {{{
 } // }}}
 
 func compileExpr(context *funcContext, reg int, expr ast.Expr, ec *expcontext) int { // {{{
+	context.enterLevel(sline(expr))
+	defer context.leaveLevel()
 	code := context.Code
 	sreg := savereg(ec, reg)
 	sused := 1
